@@ -261,7 +261,7 @@ def run(prop, tier, seed, replay=None):
         if impl2 is not None and impl2[i] != impl[i]:
             a, b = impl[i], impl2[i] or []
             first = next((j for j, (x, y) in enumerate(zip(a, b)) if x != y), min(len(a), len(b)))
-            findings.append(('nondeterministic', 'two replays of the same history in two processes (the second one after an unrelated instance had been built, and a bottom-up build of it abandoned, in the same thread) differ at observation line %d: %r vs %r' % (first, a[first] if first < len(a) else None, b[first] if first < len(b) else None), i))
+            findings.append(('nondeterministic', 'two replays of the same history in two processes (the second one after an unrelated instance had been built, and a bottom-up build of it abandoned, in the same thread, and with freed heap blocks held in quarantine so that heap addresses are reused differently) differ at observation line %d: %r vs %r' % (first, a[first] if first < len(a) else None, b[first] if first < len(b) else None), i))
         if model is not None and not meta.get('impl_only'):
             a = comparable(impl[i], cfg['keep'])
             b = comparable(model[i] or [], cfg['keep'])
